@@ -325,6 +325,28 @@ func c11Run(c *Ctx, k c11Case) (events []string, header string) {
 		}
 	}
 
+	// Parse on the whole input: the remainder is exactly what follows the first value and its trailing whitespace
+	if len(k.Sched) == 0 {
+		in := append([]byte(nil), data...)
+		var raw json.RawMessage
+		var rest []byte
+		var perr error
+		c.Eval(1)
+		if pn := protect(func() { rest, perr = json.Parse(in, &raw, 0) }); pn != "" {
+			fail("json.Parse", "no panic", pn)
+		} else if len(stdVals) > 0 {
+			vs, ve, nns := stdVals[0][0], stdVals[0][1], stdVals[0][2]
+			if perr != nil {
+				fail("json.Parse", fmt.Sprintf("value data[%d:%d], remainder data[%d:]", vs, ve, nns), "error: "+perr.Error())
+			} else if len(rest) != len(data)-nns || (len(rest) > 0 && &rest[0] != &in[nns]) || !bytes.Equal(raw, data[vs:ve]) {
+				fail("json.Parse", fmt.Sprintf("value data[%d:%d], remainder data[%d:] (%d bytes)", vs, ve, nns, len(data)-nns),
+					fmt.Sprintf("value %d bytes, remainder %d bytes", len(raw), len(rest)))
+			}
+		} else if len(k.Ideal) > 0 && (k.Ideal[0][0] == 3 || k.Ideal[0][0] == 4) && perr == nil {
+			fail("json.Parse", "an error (no complete value at the start)", fmt.Sprintf("nil error, value %q", clipS(string(raw))))
+		}
+	}
+
 	rd := &schedReader{data: data, sched: k.Sched, term: term, withE: k.WithE}
 	dec := json.NewDecoder(rd)
 	var tr *decTrace
